@@ -192,18 +192,21 @@ class _Book(PyModel):
         self.sheetnames = list(sheets)
         self._sheets = sheets
         self.defined_names = names
+        self.worksheets = list(sheets.values())
 
     def __getitem__(self, name):
         return self._sheets[name]
 
 
 class _Sheet(PyModel):
-    def __init__(self, cells):
+    def __init__(self, cells, title='', names=None):
         self._cells = cells
+        self.title = title
+        self.defined_names = names or {}         # openpyxl >= 3.1: names whose scope is this sheet
 
 
 def _book(sheets, names, cached=None):
-    """sheets: {sheet: {coordinate: native constant | '=formula'}}; names: {name: 'Sheet!$A$1'}; cached: {'Sheet!A1': cached result}"""
+    """sheets: {sheet: {coordinate: native constant | '=formula'}}; names: {name: 'Sheet!$A$1', (sheet, name): target of a name scoped to that sheet}; cached: {'Sheet!A1': cached result}"""
     import re
     out = {}
     for sname, cells in sheets.items():
@@ -218,8 +221,9 @@ def _book(sheets, names, cached=None):
             else:
                 cell = Rec(coordinate=coord, data_type='b' if isinstance(v, bool) else ('n' if isinstance(v, (int, float)) else 's'), value=v, cvalue=None)
             d[(int(m.group(2)), col)] = cell
-        out[sname] = _Sheet(dict(sorted(d.items())))
-    return _Book(out, {n: Rec(name=n, value=t, hidden=None) for n, t in (names or {}).items()})
+        local = {n[1]: Rec(name=n[1], value=t, hidden=None) for n, t in (names or {}).items() if isinstance(n, tuple) and n[0] == sname}
+        out[sname] = _Sheet(dict(sorted(d.items())), sname, local)
+    return _Book(out, {n: Rec(name=n, value=t, hidden=None) for n, t in (names or {}).items() if not isinstance(n, tuple)})
 
 
 class WorkbookFailed(Exception):
@@ -238,7 +242,7 @@ def _short(cells, limit=420):
 
 
 class Workbook:
-    def __init__(self, ctx, cells=None, models=None, world=None, sheets=None, names=None, cached=None):
+    def __init__(self, ctx, cells=None, models=None, world=None, sheets=None, names=None, cached=None, ignore_sheets=None):
         self.ctx = ctx
         self.world = world if world is not None else World()
         self.world.max_depth = 150
@@ -259,7 +263,10 @@ class Workbook:
             book = _book(sheets, names, cached)
             self.models.setdefault('ext:openpyxl.load_workbook', lambda *a, **k: book)
             self.models.setdefault('pkg:patch:openpyxl_WorksheetReader_patch', lambda *a, **k: None)
-            out = self._run(mm, {}, 'c = ModelCompiler()\nreturn c.read_and_parse_archive("witness.xlsx")')
+            if ignore_sheets is None:
+                out = self._run(mm, {}, 'c = ModelCompiler()\nreturn c.read_and_parse_archive("witness.xlsx")')
+            else:
+                out = self._run(mm, {'ign': list(ignore_sheets)}, 'c = ModelCompiler()\nreturn c.read_and_parse_archive("witness.xlsx", ignore_sheets=ign)')
         else:
             out = self._run(mm, {'d': dict(cells)}, 'c = ModelCompiler()\nreturn c.read_and_parse_dict(d)')
         if out.end == 'raise':
